@@ -141,7 +141,7 @@ PROPS['C18'] = dict(
 )
 PROPS['C19'] = dict(
     modules=['SimProc.Props.C19'], prop_files=['SimProc/Props/C19.lean'],
-    families=[('sensor', 300, 6000)],
+    families=[('sensor', 300, 6000)], impl_only_families=[('sensordec', 150, 3000)],
     tags=tags(*BASE, 'n'),
     monitors=M.MONITORS['C19'],
     nontrivial=has(('res sense',)),
@@ -181,7 +181,7 @@ def floor_prop(pid, modules, prop_files, tagsd, nontriv_prefix, extra_rule, runn
                families=None, **kw):
     d = dict(
         modules=modules, prop_files=prop_files,
-        families=families or [('floor', 120, 2500), ('floorc', 60, 1500)],
+        families=families or [('floor', 100, 2000), ('floorc', 50, 1000), ('floors', 150, 3000)],
         tags=tagsd, monitors=M.MONITORS[pid], runner=runner,
         nontrivial=has(nontriv_prefix), stats=floor_stats, divergence_is_witness=False,
         rule=FLOOR_RULE + extra_rule,
@@ -195,14 +195,14 @@ def floor_prop(pid, modules, prop_files, tagsd, nontriv_prefix, extra_rule, runn
 PROPS['C02'] = floor_prop(
     'C02', ['SimProc.Props.C02'], ['SimProc/Props/C02.lean'],
     {'d': _c.fields('part', 'out', 'buf', 'inprog', 'prod', 'max', 'recv', 'lvl'), 'p': _c.fields('kids'),
-     'rec': _c.only(('device_failure', 'supplied_new_part', 'received_part'))},
+     'rec': _c.only(('device_failure', 'supplied_new_part', 'received_part')), 'res': _c.only(('shut',))},
     ('rec device_failure', 'rec received_part'), 'non-trivial = at least one part was received; distinct by scenario text')
 PROPS['C03'] = floor_prop(
     'C03', ['SimProc.Props.C03'], ['SimProc/Props/C03.lean'],
     {'ev': None, 'now': None, 'ran': None, 'd': _c.fields('part', 'out', 'buf', 'wds', 'blk', 'down', 'wres', 'lvl')},
     ('d ',), 'implementation traces are produced with the deep-copy probe at every clock advance; non-trivial = a scenario '
              'in which some device waited for downstream space', runner='ProbeRunner',
-    families=[('floorc', 100, 2000), ('floor', 60, 1500)],
+    families=[('floorc', 80, 1500), ('floor', 50, 1000), ('floors', 120, 2500)],
     nontrivial=lambda st, s: any(l.startswith('d ') and ' wds=1 ' in l for l in st))
 PROPS['C04'] = floor_prop(
     'C04', ['SimProc.Props.C04'], ['SimProc/Props/C04.lean'],
@@ -223,22 +223,26 @@ PROPS['C11'] = floor_prop(
     'C11', ['SimProc.Props.C11'], ['SimProc/Props/C11.lean'],
     {'d': _c.fields('part', 'resv', 'wres', 'down'), 'r': None, 'rec': _c.only(('resource_update',))},
     ('rec resource_update',), 'non-trivial = a pool changed',
-    families=[('floorc', 120, 2500), ('floor', 60, 1500)])
+    families=[('floorp', 120, 2500), ('floorm', 80, 1500), ('floorc', 60, 1000)])
 PROPS['C13'] = floor_prop(
     'C13', ['SimProc.Props.C13'], ['SimProc/Props/C13.lean'],
     {'d': _c.fields('part', 'out', 'down', 'up', 'use'), 'res': _c.only(('shut', 'restored', 'hook')),
      'rec': _c.only(('device_failure',)), 'now': None},
-    ('rec device_failure', 'res shut'), 'non-trivial = a machine failed or was shut down')
+    ('rec device_failure', 'res shut'), 'implementation traces are produced with the deep-copy probe (a finished part kept through '
+    'a failure must leave after restoration); non-trivial = a machine failed or was shut down', runner='ProbeRunner',
+    families=[('floorm', 120, 2500), ('floor', 80, 1500), ('floorc', 40, 800)])
+PROPS['C13']['monitors'] = M.MONITORS['C13'] + M.MONITORS['C03']
 PROPS['C15'] = floor_prop(
     'C15', ['SimProc.Props.C15'], ['SimProc/Props/C15.lean'],
-    {'rec': None, 'd': _c.fields('lvl', 'prod', 'recv'), 'r': None},
+    {'rec': None, 'd': _c.fields('lvl', 'prod', 'recv'), 'r': None, 'res': _c.only(('shut',))},
     ('rec ',), 'non-trivial = records were written',
-    families=[('floor', 100, 2000), ('maint', 60, 1000), ('sched', 60, 1000), ('rm', 60, 1000)])
+    families=[('floor', 100, 2000), ('floors', 100, 2000), ('maint', 60, 1000), ('sched', 60, 1000), ('rm', 60, 1000)])
 PROPS['C16'] = floor_prop(
     'C16', ['SimProc.Props.C16'], ['SimProc/Props/C16.lean'],
-    {'d': _c.fields('val', 'vh', 'cost', 'rval'), 'm': _c.fields('val', 'vh')},
+    {'d': _c.fields('val', 'vh', 'cost', 'rval'), 'm': _c.fields('val', 'vh'), 'p': _c.fields('v'),
+     'rec': _c.only(('supplied_new_part', 'received_part'))},
     ('d ',), 'the runner also checks value bookkeeping on the live objects after every event; non-trivial = a value changed',
-    runner='ValueRunner', families=[('floor', 120, 2500), ('maint', 60, 1000)],
+    runner='ValueRunner', families=[('floor', 120, 2500), ('floors', 80, 1500), ('maint', 60, 1000)],
     nontrivial=lambda st, s: any(l.startswith(('d ', 'm ')) and ' vh=0 ' not in l + ' ' for l in st))
 PROPS['C17'] = floor_prop(
     'C17', ['SimProc.Props.C17'], ['SimProc/Props/C17.lean'],
